@@ -81,6 +81,19 @@ class UQMonitor(Monitor):
             return
         (E, Var) = sim.op.calculate_expectation_and_variance(sim.sa)
         E = [float(x) for x in E]; Var = [float(x) for x in Var]
+        # asking again on the same refined grid must give the same answer (queries must not consume the stored moments),
+        # and the nodes-and-weights path must agree with the combined-moments path
+        (E2, Var2) = sim.op.calculate_expectation_and_variance(sim.sa)
+        if [float(x) for x in E2] != E or [float(x) for x in Var2] != Var:
+            ctx.violate("moments_query_idempotent", self.sig(sim), "second query on the same grid gives E=%s Var=%s, first gave E=%s Var=%s" % (
+                [float(x) for x in E2], [float(x) for x in Var2], E, Var), taint="moments")
+            return
+        (E3, Var3) = sim.op.calculate_expectation_and_variance(sim.sa, use_combiinstance_solution=False)
+        sc = 1.0 + max(abs(x) for x in E + Var)
+        if any(abs(float(x) - y) > 1e-8 * sc for x, y in zip(list(E3) + list(Var3), E + Var)):
+            ctx.violate("moments_two_paths_agree", self.sig(sim), "nodes-and-weights path gives E=%s Var=%s, combined-moments path E=%s Var=%s" % (
+                [float(x) for x in E3], [float(x) for x in Var3], E, Var), taint="moments")
+            return
         cc, ee, const = c["c"], c["e"], c["const"]
         scale = 1.0 + abs(cc) * 2 + abs(ee) + abs(const)
         tol = 1e-9 * scale * scale
